@@ -1256,6 +1256,40 @@ pub fn run(ctx: &mut Ctx) {
             }
             _ => ctx.oracle("embedded_issuer", "CleartextSignedMessage::sign", &g.name, false, "signing failed"),
         }
+        // third-party certifications: the signer is a DIFFERENT key than the certified one; the issuer
+        // fields must name the signer (every other key generated in this run is certified once)
+        for (oi, other) in gens.iter().enumerate() {
+            if std::ptr::eq(other, g) || (oi + (seed as usize)) % 3 != 0 {
+                continue;
+            }
+            let signee = other.sec.primary_key.public_key();
+            let uid = pgp::packet::UserId::from_str(pgp::types::PacketHeaderVersion::New, "third party <tp@example.org>");
+            let r = guarded(|| {
+                let mut rng = ChaCha8Rng::seed_from_u64(seed ^ 7);
+                uid.ok()?.sign_third_party(&mut rng, key, &Password::empty(), signee, SignatureType::CertGeneric).ok()
+            });
+            match r {
+                Ok(Some(su)) => {
+                    for s in &su.signatures {
+                        check_fresh_signature(ctx, s, key.public_key(), "UserId::sign_third_party");
+                    }
+                }
+                _ => ctx.stat("sig:UserId::sign_third_party:refused"),
+            }
+            let r = guarded(|| {
+                let mut rng = ChaCha8Rng::seed_from_u64(seed ^ 8);
+                let attr = pgp::packet::UserAttribute::new_image(vec![0xFFu8, 0xD8, 0xFF, 0xD9].into()).ok()?;
+                attr.sign_third_party(&mut rng, key, &Password::empty(), signee, SignatureType::CertGeneric).ok()
+            });
+            match r {
+                Ok(Some(sa)) => {
+                    for s in &sa.signatures {
+                        check_fresh_signature(ctx, s, key.public_key(), "UserAttribute::sign_third_party");
+                    }
+                }
+                _ => ctx.stat("sig:UserAttribute::sign_third_party:refused"),
+            }
+        }
         // inline: one-pass signature packet + signature
         let inline = guarded(|| {
             let mut rng = ChaCha8Rng::seed_from_u64(seed ^ 2);
